@@ -405,3 +405,34 @@ Proof.
   intros Hu. unfold list_files. eapply Permutation_NoDup; [apply Permutation_sym, sort_perm|].
   apply walk_nodup. exact Hu.
 Qed.
+
+(* ---------- select_files is complete up to the de-duplication key ---------- *)
+Lemma dedup_by_complete key : forall l seen x, In x l ->
+  mem_str (key x) seen = true \/ exists y, In y (dedup_by key seen l) /\ key y = key x.
+Proof.
+  induction l as [|a l IH]; intros seen x Hx; [contradiction|]. cbn [dedup_by].
+  destruct Hx as [->|Hx].
+  - destruct (mem_str (key x) seen) eqn:Hm; [left; reflexivity|].
+    right. exists x. split; [left; reflexivity|reflexivity].
+  - destruct (mem_str (key a) seen) eqn:Hm.
+    + apply IH. exact Hx.
+    + destruct (IH (key a :: seen) x Hx) as [Hs|(y & Hy & Hk)].
+      * unfold mem_str in Hs. cbn [existsb] in Hs. apply orb_true_iff in Hs. destruct Hs as [Hs|Hs].
+        -- apply str_eqb_eq in Hs. right. exists a. split; [left; reflexivity|symmetry; exact Hs].
+        -- left. exact Hs.
+      * right. exists y. split; [right; exact Hy|exact Hk].
+Qed.
+
+Theorem select_files_complete ign acc filt key inputs path t p :
+  In (path, t) inputs -> selected ign acc (corrected path) t p ->
+  match filt with Some f => f p = true | None => True end ->
+  exists q, In q (select_files ign acc filt key inputs) /\ key q = key p.
+Proof.
+  intros Hin Hsel Hf. unfold select_files.
+  assert (Hall : In p (flat_map (fun it => list_files ign acc (fst it) (snd it)) inputs)).
+  { apply in_flat_map. exists (path, t). split; [exact Hin|]. cbn [fst snd]. apply list_files_exact. exact Hsel. }
+  set (all := flat_map (fun it => list_files ign acc (fst it) (snd it)) inputs) in *.
+  assert (Hkept : In p (match filt with Some f => filter f all | None => all end)).
+  { destruct filt as [f|]; [apply filter_In; split; assumption|exact Hall]. }
+  destruct (dedup_by_complete key _ [] p Hkept) as [Hs|H]; [discriminate|exact H].
+Qed.
